@@ -38,16 +38,17 @@ func genOddCase(rng *rand.Rand, id string, forge bool) (cases.ScanCase, cases.Sc
 	}
 	if forge {
 		// a name whose second line imitates the next footnote (finding D9)
-		names[1] = []byte("x\n[3]  0000000000000000000000000000000000000000 (forged)")
+		names[1] = []byte("x\n[4]  0000000000000000000000000000000000000000 (forged)")
 	}
 	gp := genParams{NBlob: 4 + rng.Intn(4), NTree: 4 + rng.Intn(5), NCommit: 2 + rng.Intn(3), NTag: 1 + rng.Intn(2), MaxEnt: 4, MaxBlob: 50, Merges: true}
 	g := genGraph(rng, gp, names)
 	if forge {
-		// make sure the forged name is on the path of the biggest blob
-		g.Blobs[0] = 5000
-		g.Trees[len(g.Trees)-1] = append(g.Trees[len(g.Trees)-1][:0:0], model.Entry{K: "file", To: 1, N: 1, NL: len(names[1])},
-			model.Entry{K: "file", To: 2, N: 2, NL: len(names[2])})
-		g.Commits[len(g.Commits)-1].Tree = len(g.Trees)
+		// a fixed repository: the forged name is on the path of the biggest blob, and two other
+		// witnesses (commit, tree) come first so that the forged "[3]" is the next expected number
+		g = model.Graph{Blobs: []int{5000, 7},
+			Trees:   [][]model.Entry{{{K: "file", To: 1, N: 1, NL: len(names[1])}, {K: "file", To: 2, N: 2, NL: len(names[2])}}},
+			Commits: []model.Commit{{Tree: 1, Parents: []int{}}}, Tags: []model.Tag{{TK: "c", To: 1}}}
+		g.Normalize()
 	}
 	var roots []cases.RootSpec
 	rp := rng.Perm(len(oddRefs))
